@@ -115,8 +115,57 @@ package rule
 //@ ensures[C06] isNil(result1) && !(len(num) > 0 && num[0] == '-') ==> strIsNum(num, 0, false) && result0 == strUval(num, 0)
 //@ ensures[C06] isNil(result1) && len(num) > 0 && num[0] == '-' ==> strIsNum(num, 0, true) && (strIval(num, 0) >= 0 ==> result0 == strIval(num, 0)) && (strIval(num, 0) < 0 ==> result0 == strIval(num, 0) + 4294967296)
 //
+// -F perm= / -p: the OR of the bits of the letters present, nothing but r, w, x, a.
+//@ rec unfold hasCh(s string, n int, c int) bool := n > 0 && (s[n - 1] == c || hasCh(s, n - 1, c))
+//@ spec permVal(s string, n int) int := (if hasCh(s, n, 'r') then readPerm else 0) + (if hasCh(s, n, 'w') then writePerm else 0) + (if hasCh(s, n, 'x') then execPerm else 0) + (if hasCh(s, n, 'a') then attrPerm else 0)
+//@ func rule.getPerm
+//@ pure
+//@ ensures[C06] isNil(result1) ==> result0 == permVal(perm, len(perm))
+//@ ensures[C06] isNil(result1) ==> forall i int :: 0 <= i && i < len(perm) ==> perm[i] == 'r' || perm[i] == 'w' || perm[i] == 'x' || perm[i] == 'a'
+//@ loop 0 invariant 0 <= rangepos && rangepos <= len(perm)
+//@ loop 0 invariant permBits == permVal(perm, rangepos)
+//@ loop 0 invariant forall i int :: 0 <= i && i < rangepos ==> perm[i] == 'r' || perm[i] == 'w' || perm[i] == 'x' || perm[i] == 'a'
+//
+// uid/gid values: "unset" and "-1" are the unset id, a decimal number is itself
+// (other text goes through the user database, which is not specified here).
+//@ func rule.getUID
+//@ modifies alloc
+//@ ensures[C06] isNil(result1) && (uid == "unset" || uid == "-1") ==> result0 == 4294967295
+//@ ensures[C06] isNil(result1) && uid != "unset" && uid != "-1" && strIsNum(uid, 10, false) ==> result0 == strUval(uid, 10)
+//@ func rule.getGID
+//@ modifies alloc
+//@ ensures[C06] isNil(result1) && (gid == "unset" || gid == "-1") ==> result0 == 4294967295
+//@ ensures[C06] isNil(result1) && gid != "unset" && gid != "-1" && strIsNum(gid, 10, false) ==> result0 == strUval(gid, 10)
+// exit codes and message types given as numbers are themselves.
+//@ func rule.getExitCode
+//@ modifies alloc
+//@ ensures[C06] isNil(result1) && strIsNum(exit, 0, true) ==> result0 == strIval(exit, 0)
+//@ func rule.getAuditMsgType
+//@ modifies alloc
+//@ ensures[C06] isNil(result1) && strIsNum(msgType, 0, false) ==> result0 == strUval(msgType, 0)
+// file types by name, or a number.
+//@ spec isFiletypeName(n string) bool := n == "file" || n == "dir" || n == "socket" || n == "symlink" || n == "char" || n == "block" || n == "fifo"
+//@ func rule.getFiletype
+//@ modifies alloc
+//@ ensures[C06] isNil(result1) && toLower(name) == "file" ==> result0 == fileFiletype
+//@ ensures[C06] isNil(result1) && toLower(name) == "dir" ==> result0 == dirFiletype
+//@ ensures[C06] isNil(result1) && toLower(name) == "socket" ==> result0 == socketFiletype
+//@ ensures[C06] isNil(result1) && toLower(name) == "symlink" ==> result0 == linkFiletype
+//@ ensures[C06] isNil(result1) && toLower(name) == "char" ==> result0 == characterFiletype
+//@ ensures[C06] isNil(result1) && toLower(name) == "block" ==> result0 == blockFiletype
+//@ ensures[C06] isNil(result1) && toLower(name) == "fifo" ==> result0 == fifoFiletype
+//@ ensures[C06] isNil(result1) && !isFiletypeName(toLower(name)) ==> strIsNum(name, 0, false) && result0 == strUval(name, 0)
+// arch: the code of the name in the arch table; only b32/b64 are translated.
+//@ func rule.getArch
+//@ modifies alloc
+//@ ensures[C06] isNil(result2) ==> result0 in reverseArch && result1 == reverseArch[result0]
+//@ ensures[C06] isNil(result2) && toLower(arch) != "b64" && toLower(arch) != "b32" ==> result0 == arch
+//
 //@ spec isStringField(f int) bool := f == objectUserField || f == objectRoleField || f == objectTypeField || f == objectLevelLowField || f == objectLevelHighField || f == pathField || f == dirField || f == subjectUserField || f == subjectRoleField || f == subjectTypeField || f == subjectSensitivityField || f == subjectClearanceField || f == keyField || f == exeField
 //@ spec isPlainNumField(f int) bool := f == arg0Field || f == arg1Field || f == arg2Field || f == arg3Field || f == inodeField || f == devMajorField || f == devMinorField || f == successField || f == ppidField || f == pidField || f == persField
+//@ spec isIdField(f int) bool := f == uidField || f == euidField || f == suidField || f == fsuidField || f == auidField || f == objectUIDField || f == gidField || f == egidField || f == sgidField || f == fsgidField || f == objectGIDField
+//@ spec isSpecialField(f int) bool := isIdField(f) || isStringField(f) || f == exitField || f == msgTypeField || f == archField || f == permField || f == filetypeField
+//@ spec filetypeCode(n string) int := if n == "file" then fileFiletype else (if n == "dir" then dirFiletype else (if n == "socket" then socketFiletype else (if n == "symlink" then linkFiletype else (if n == "char" then characterFiletype else (if n == "block" then blockFiletype else fifoFiletype)))))
 //@ spec distinct4(a int, b int, c int, d int) bool := (a == 0 || (a != b && a != c && a != d)) && (b == 0 || (b != c && b != d)) && (c == 0 || c != d)
 //@ spec rdOK(d *ruleData) bool := d != nil && len(d.fields) == len(d.values) && len(d.fields) == len(d.fieldFlags) && len(d.strings) <= len(d.fields) && (forall j int :: lo(d.strings) <= j && j < hi(d.strings) ==> len(at(d.strings, j)) <= 4096) && distinct4(base(d.fields), base(d.values), base(d.fieldFlags), base(d.syscalls))
 //
@@ -137,6 +186,17 @@ package rule
 //@ ensures[C06] isNil(result0) && isStringField(fieldsTable[lhs]) ==> at(rule.values, hi(rule.values) - 1) == len(rhs) && len(rule.strings) == old(len(rule.strings)) + 1 && at(rule.strings, hi(rule.strings) - 1) == rhs
 //@ ensures[C06] isNil(result0) && !isStringField(fieldsTable[lhs]) ==> len(rule.strings) == old(len(rule.strings))
 //@ ensures[C06] isNil(result0) && isPlainNumField(fieldsTable[lhs]) && !(len(rhs) > 0 && rhs[0] == '-') ==> at(rule.values, hi(rule.values) - 1) == strUval(rhs, 0)
+//@ ensures[C06] isNil(result0) && !isSpecialField(fieldsTable[lhs]) && !(len(rhs) > 0 && rhs[0] == '-') ==> at(rule.values, hi(rule.values) - 1) == strUval(rhs, 0)
+//@ ensures[C06] isNil(result0) && isIdField(fieldsTable[lhs]) && (rhs == "unset" || rhs == "-1") ==> at(rule.values, hi(rule.values) - 1) == 4294967295
+//@ ensures[C06] isNil(result0) && isIdField(fieldsTable[lhs]) && rhs != "unset" && rhs != "-1" && strIsNum(rhs, 10, false) ==> at(rule.values, hi(rule.values) - 1) == strUval(rhs, 10)
+//@ ensures[C06] isNil(result0) && fieldsTable[lhs] == permField ==> at(rule.values, hi(rule.values) - 1) == permVal(rhs, len(rhs))
+//@ ensures[C06] isNil(result0) && fieldsTable[lhs] == exitField && strIsNum(rhs, 0, true) ==> at(rule.values, hi(rule.values) - 1) == (if strIval(rhs, 0) >= 0 then strIval(rhs, 0) else strIval(rhs, 0) + 4294967296)
+//@ ensures[C06] isNil(result0) && fieldsTable[lhs] == msgTypeField && strIsNum(rhs, 0, false) ==> at(rule.values, hi(rule.values) - 1) == strUval(rhs, 0)
+//@ ensures[C06] isNil(result0) && fieldsTable[lhs] == filetypeField && !isFiletypeName(toLower(rhs)) ==> strIsNum(rhs, 0, false) && at(rule.values, hi(rule.values) - 1) == strUval(rhs, 0)
+//@ ensures[C06] isNil(result0) && fieldsTable[lhs] == filetypeField && isFiletypeName(toLower(rhs)) ==> at(rule.values, hi(rule.values) - 1) == filetypeCode(toLower(rhs))
+//@ ensures[C06] isNil(result0) && fieldsTable[lhs] == archField ==> rule.arch in reverseArch && at(rule.values, hi(rule.values) - 1) == reverseArch[rule.arch] && (toLower(rhs) != "b64" && toLower(rhs) != "b32" ==> rule.arch == rhs)
+//@ ensures[C06] isNil(result0) && fieldsTable[lhs] == saddrFamField ==> at(rule.values, hi(rule.values) - 1) == 2 || at(rule.values, hi(rule.values) - 1) == 10
+//@ ensures[C06] fieldsTable[lhs] != archField || !isNil(result0) ==> rule.arch == old(rule.arch)
 
 // -C: an inter-field comparison is the pseudo field AUDIT_FIELD_COMPARE with the
 // code of the (symmetric) pair as its value.
@@ -173,6 +233,7 @@ package rule
 //@ ensures[C06] isNil(result0) && syscall != "all" ==> !rule.allSyscalls && len(rule.syscalls) == old(len(rule.syscalls)) + 1 && lo(rule.syscalls) == old(lo(rule.syscalls))
 //@ ensures[C06] !isNil(result0) ==> len(rule.syscalls) == old(len(rule.syscalls))
 //@ ensures[C06] forall j int :: old(lo(rule.syscalls)) <= j && j < old(hi(rule.syscalls)) ==> at(rule.syscalls, j) == old(at(rule.syscalls, j))
+//@ ensures[C06] isNil(result0) && syscall != "all" && !strIsNum(syscall, 10, true) && rule.arch != "" ==> rule.arch in reverseSyscall && syscall in reverseSyscall[rule.arch] && (0 <= reverseSyscall[rule.arch][syscall] && reverseSyscall[rule.arch][syscall] < 4294967296 ==> at(rule.syscalls, hi(rule.syscalls) - 1) == reverseSyscall[rule.arch][syscall])
 //@ ensures[C06] isNil(result0) && syscall != "all" && strIsNum(syscall, 10, true) && 0 <= strIval(syscall, 10) && strIval(syscall, 10) < 4294967296 ==> at(rule.syscalls, hi(rule.syscalls) - 1) == strIval(syscall, 10)
 //@ ensures[C06] forall j int :: lo(rule.fields) <= j && j < hi(rule.fields) ==> at(rule.fields, j) == old(at(rule.fields, j)) && at(rule.values, j - lo(rule.fields) + lo(rule.values)) == old(at(rule.values, j - lo(rule.fields) + lo(rule.values))) && at(rule.fieldFlags, j - lo(rule.fields) + lo(rule.fieldFlags)) == old(at(rule.fieldFlags, j - lo(rule.fields) + lo(rule.fieldFlags)))
 
